@@ -35,6 +35,19 @@ def proofs(ctx):
         for frag in ("if self._av_walker is None:", "QueryWalker(ArchiveFileCopy, ArchiveFileCopy.node == self.db, ArchiveFileCopy.has_file != 'N')", "self._av_walker.get(self.db.auto_verify)"):
             if frag not in rav:
                 raise T.Untranslatable(f"UNTRANSLATABLE: run_auto_verify no longer contains `{frag}`")
+        # auto-verify is part of the idle update, which follows only an update that was not skipped
+        up = T.strip_doc(T.find_func(upd, "UpdateableNode.update").body)
+        last = up[-1]
+        if not (isinstance(last, ast.If) and ast.unparse(last.test) == "idle and do_update" and ast.unparse(last.body[-1]) == "self._updated = True"
+                and last.orelse and ast.unparse(last.orelse[-1]) == "self._updated = False"):
+            raise T.Untranslatable("UNTRANSLATABLE: UpdateableNode.update no longer ends by recording in _updated whether the update ran (True) or was skipped (False)")
+        sets = [ast.unparse(n) for n in ast.walk(T.find_func(upd, "UpdateableNode")) if isinstance(n, ast.Assign) and ast.unparse(n.targets[0]) == "self._updated"]
+        if sorted(sets) != ["self._updated = False", "self._updated = False", "self._updated = True"]:
+            raise T.Untranslatable(f"UNTRANSLATABLE: assignments to _updated changed: {sets}")
+        ui = T.strip_doc(T.find_func(upd, "UpdateableNode.update_idle").body)
+        gate = [n for n in ui if isinstance(n, ast.If)]
+        if len(gate) != 1 or ast.unparse(gate[0].test) != "self._updated and self.idle" or "self.run_auto_verify()" not in ast.unparse(gate[0]) or "run_auto_verify" in "".join(ast.unparse(n) for n in ui if n is not gate[0]):
+            raise T.Untranslatable("UNTRANSLATABLE: update_idle no longer runs auto-verify only under `self._updated and self.idle`")
         ctx.obligations.append("walker-lifecycle")
     except T.Untranslatable as e:
         ctx.broke("translator", "auto-verify walker lifecycle", str(e))
@@ -102,6 +115,91 @@ def daemon_runs(ctx, cases, nworlds):
             cases.append(term(live, c[1], c[2], c[3]))
         if k == 0:
             ctx.sample(rp)
+
+
+def gate_runs(ctx, cases, nruns):
+    """update() / update_idle() of a real UpdateableNode, one main-loop iteration at a time: an iteration whose update was skipped
+    (tasks pending at its start, or cancelled by the I/O class) or which is not idle afterwards selects nothing, and the walk resumes unchanged"""
+    from alpenhorn.daemon import querywalker as QW
+    from alpenhorn.daemon import update as U
+    from alpenhorn.scheduler import FairMultiFIFOQueue
+    from vf.harness import world as w
+
+    rng = ctx.rng
+    base = ctx.tmp() / "gate"
+    for run in range(nruns):
+        root = base / f"r{run}"
+        root.mkdir(parents=True, exist_ok=True)
+        w.fresh_db(host="h1")
+        g = w.mkgroup("g")
+        n, kk = rng.randint(1, 8), rng.randint(1, 4)
+        row = w.mknode(None, "n", g, stype="F", host="h1", root=str(root), auto_verify=kk)
+        acq = w.ArchiveAcq.create(name="acq")
+        old = datetime.datetime(2000, 1, 1)
+        for i in range(n):
+            f = w.ArchiveFile.create(acq=acq, name=f"f{i}", size_b=1, md5sum="0" * 32)
+            w.ArchiveFileCopy.create(file=f, node=row, has_file="Y", wants_file="Y", size_b=1, last_update=old)
+        queue = FairMultiFIFOQueue()
+        un = U.UpdateableNode(queue, w.StorageNode.get(id=row.id))
+        calls = []
+        orig = QW.QueryWalker.get
+
+        def get(self_, n_=1, _orig=orig, _calls=calls):
+            cur = self_._id
+            items = _orig(self_, n_)
+            _calls.append((cur, n_, ([c.id for c in items], self_._id)))
+            return items
+
+        def drain():
+            while True:
+                it = queue.get(timeout=0.001)
+                if it is None:
+                    return
+                queue.task_done(it[1])
+
+        QW.QueryWalker.get = get
+        hist = []
+        try:
+            live = sorted(c.id for c in w.ArchiveFileCopy.select().where(w.ArchiveFileCopy.node == row))
+            for it in range(rng.randint(4, 9)):
+                kind = rng.choice(["idle", "idle", "busy-then-done", "busy-stays", "cancelled", "busy-after"])
+                if kind in ("busy-then-done", "busy-stays"):
+                    queue.put(object(), un.io.fifo)
+                saved = un.io.before_update
+                if kind == "cancelled":
+                    un.io.before_update = lambda idle: False
+                idle0 = un.idle
+                ncalls = len(calls)
+                # the statements of update_loop for one node: update(), (workers run), update_idle()
+                un.update()
+                un.io.before_update = saved
+                if kind != "busy-stays":
+                    drain()
+                if kind == "busy-after":
+                    queue.put(object(), un.io.fifo)
+                idle1 = un.idle
+                # auto-verified copies are put back to 'Y' (the check task would do that) so that the age filter is not what is tested here
+                un.update_idle()
+                made = len(calls) - ncalls
+                drain()
+                w.ArchiveFileCopy.update(has_file="Y", last_update=old).where(w.ArchiveFileCopy.node == row).execute()
+                expect = 1 if (idle0 and kind != "cancelled" and idle1) else 0
+                hist.append((kind, idle0, idle1, made))
+                ctx.count("gate-iterations")
+                rp = {"family": "gate", "copies": n, "auto_verify": kk, "iterations": [list(h) for h in hist]}
+                if made != expect:
+                    what = ("the update was skipped (busy)" if not idle0 else "the update was cancelled" if kind == "cancelled" else "tasks are pending after the update") if expect == 0 else "the update ran and the node is idle"
+                    ctx.fail("C19:auto-verify-gate", f"iteration {it} ({kind}): {made} auto-verify batch(es) although {what}; history {hist}", rp)
+                    break
+            ctx.distinct_add(("gate", n, kk, tuple(h[0] for h in hist)))
+            for a, b in zip(calls, calls[1:]):
+                if b[0] != a[2][1]:
+                    ctx.fail("C19:walker-restarted", f"a batch stopped with the cursor at {a[2][1]} but the next one started at {b[0]} (history {hist})", {"family": "gate", "iterations": [list(h) for h in hist]})
+                    break
+            for c in calls:
+                cases.append(term(live, c[0], c[1], c[2]))
+        finally:
+            QW.QueryWalker.get = orig
 
 
 def w_copies(sim, node):
@@ -394,6 +492,7 @@ def explore(ctx):
         static_runs(ctx, cases, 8, 10)
         dynamic_runs(ctx, cases, 2500)
     daemon_runs(ctx, cases, 12 if ctx.quick() else 300)
+    gate_runs(ctx, cases, 25 if ctx.quick() else 600)
     bad = core.run_cases(ctx, "walker", "Corr.C19", "case", "check", cases, shard=500)
     for i in bad[:3]:
         ctx.broke("correspondence", f"walker: model and implementation differ on case {cases[i]}")
